@@ -199,6 +199,11 @@ func runC16(c *Ctx) {
 	r.Rule("R16.2", "heartbeat content: Type ← HeartbeatSystemType, Autopilot ← HeartbeatAutopilotType, BaseMode ← 0, CustomMode ← 0, SystemStatus ← 4 (active), MavlinkVersion ← Dialect.Version, each name an unsigned field of the standard "+
 		"HEARTBEAT struct, set on a fresh instance of the dialect's own heartbeat type and sent to all channels; the ticker uses HeartbeatPeriod; defaults: period 5 s, system type 6, request frequency 4", 5)
 	vals, objs := setUintTable(hbR)
+	if len(vals) == 0 {
+		// built once at initialisation and kept in the module (its content depends on the configuration only; every send
+		// encodes it afresh): the same content rule applies to what initialize builds
+		vals, objs = setUintTable(hbI)
+	}
 	want := map[string]string{"Type": "uint64(recv.node.HeartbeatSystemType)", "Autopilot": "uint64(recv.node.HeartbeatAutopilotType)", "BaseMode": "0", "CustomMode": "0", "SystemStatus": "4", "MavlinkVersion": "uint64(recv.node.Dialect.Version)"}
 	kinds := structFieldKinds(c, "pkg/dialects/minimal", "MessageHeartbeat")
 	var probs []string
